@@ -96,11 +96,13 @@ CLAIMS = {
             "paddings, and that json_encode/slug delegate verbatim. Third-party crate behaviour is trusted, not decided.",
             "trusts percent-encoding, base64, serde_json, slug crates",
             "DESIGN.md §5 C20"),
-    "C05": ("who-may-write inventory over State fields; dominance-checked depth guard; provenance of the component context",
+    "C05": ("who-may-write inventory over State fields; dominance-checked depth guard; provenance of the component context; edge conditions of every insert into the built context",
             "Static decision of the isolation/recursion skeleton: State.global_context / include_parent have exactly one writer each, both "
             "component entry points build their State from build_context's result and assign nothing but `filters`, the component re-entry is "
             "dominated by the depth test with depth+1 carried into the child VM and through includes, both entry points share the builder and mint "
-            "the result safe. Does not decide the argument-binding logic of build_context (value-level).",
+            "the result safe; and the binding skeleton of build_context (fresh context; provided value type-checked then bound; default only when "
+            "missing; missing without default, type mismatch and unknown arguments end in Err; undeclared keys to the rest map only when declared; "
+            "rest/body only when present). Does not decide the type relation itself nor priority resolution (value-level).",
             "trusts rustc's MIR; stack holds 20 nested interpret frames",
             "DESIGN.md §5 C05"),
     "C07": ("call-graph cycle analysis with depth-guard dominance (VM re-entries, value traversals); def-use pairing of the reference chain; who-may-call on registries",
